@@ -35,6 +35,8 @@ def make_cfg(rng, profile):
         cfg["wakeup"] = rng.choice([6, 1, 3, 10])
     cfg["rsize"] = profile.get("rsize", rng.choice([10240, 1, 2, 3]))
     cfg["e2e_rand"] = rng.randrange(1, 0xfffff)
+    # the local host name decides RFC 6733 5.6.4 elections: mostly greater than the peers' names, sometimes smaller
+    cfg["host"] = "aaa.example.net" if rng.random() < 0.2 else "srv.example.net"
     if len(cfg["apps"]) and rng.random() < 0.3:
         cfg["extra_realms"] = {0: ["other.example.org"]}
     return cfg
@@ -129,6 +131,7 @@ class Gen:
                 add("burst", lambda cid=cid, c=c: self.ev_burst(cid, c))
             if st == 4:
                 add("request", lambda cid=cid, c=c: self.ev_request(cid, c))
+                add("stray_answer", lambda cid=cid, c=c: self.ev_stray_answer(cid, c))
             add("close", lambda cid=cid: dict(ev="close", cid=cid))
             add("readerr", lambda cid=cid: dict(ev="readerr", cid=cid, hard=rng.random() < 0.6))
             add("stall", lambda cid=cid: dict(ev="stall", cid=cid, on=rng.random() < 0.5))
